@@ -210,7 +210,7 @@ pub fn get_highest_quality_language(accept_language: String) -> Option<String> {
             let language = full_language.split('-').next().unwrap_or("").to_string();
             let quality: f32 = lang_and_quality
                 .next()
-                .and_then(|q| q.trim_start_matches("q=").parse::<f32>().ok())
+                .and_then(|q| q.trim().trim_start_matches("q=").trim().parse::<f32>().ok())
                 .unwrap_or(1.0);
 
             LANGUAGES
